@@ -54,11 +54,46 @@ def g_adv(rng, lo=0, hi=6):
     return ''.join(rng.choice(ADV + PLAIN[:4]) if rng.random() < 0.7 else rng.choice(PLAIN) for _ in range(n))
 
 
+def _ascii_lookalikes():
+    """non-ASCII characters that case mapping, case folding or compatibility normalisation turns into ASCII letters / digits,
+    enumerated from the running interpreter: a name test done with re.IGNORECASE, str.lower(), \\w, isalnum() … takes them
+    for legacy characters, the format's bare-name alphabet (ASCII only) does not"""
+    import unicodedata
+    fold, compat = [], []
+    for c in range(128, 0x30000):
+        ch = chr(c)
+        if any(x.isascii() and x.isalnum() for m in (ch.lower(), ch.upper(), ch.casefold()) for x in m):
+            fold.append(ch)
+        elif c < 0x3000 or 0xFF00 <= c < 0xFFF0:
+            k = unicodedata.normalize('NFKC', ch)
+            if len(k) == 1 and k.isascii() and k.isalnum():
+                compat.append(ch)
+    return fold, compat
+
+
+FOLD, COMPAT = _ascii_lookalikes()      # FOLD ⊇ U+0130, U+0131, U+017F, U+212A
+
+
+def g_lookalike(rng):
+    """an otherwise-legacy name with one such character at the start, inside or at the end"""
+    r0 = rng.random()
+    ch = (rng.choice('\u0130\u0131\u017f\u212a') if r0 < 0.5 else rng.choice(FOLD) if r0 < 0.75
+          else rng.choice(COMPAT + ['\u0663', '\u00b2', '\u00aa']))
+    r = rng.random()
+    if r < 0.25:
+        return ch + g_plain(rng)
+    if r < 0.75:
+        return g_plain(rng) + ch + g_plain(rng, first='abxyz_019')
+    return g_plain(rng) + ch
+
+
 def g_name(rng):
     """a metric / label name: mostly legacy-looking, then the classes that matter"""
     r = rng.random()
-    if r < 0.40:
+    if r < 0.34:
         return g_plain(rng)
+    if r < 0.40:
+        return g_lookalike(rng)
     if r < 0.50:
         return g_plain(rng) + '\n'                      # F2 shape
     if r < 0.58:
@@ -225,6 +260,15 @@ CORPUS = [
         {'k': 'histogram', 'name': 'h3', 'doc': '\\"n\n\\n"', 'labelnames': [], 'ns': '', 'ss': '', 'unit': '', 'children': [{'lv': [], 'v': 1.0}]},
         {'k': 'custom', 'cls': 'GaugeHistogramMetricFamily', 'name': 'gh3', 'doc': '"a\\b"\n', 'unit': '', 'labelnames': [],
          'rows': [{'lv': [], 'v': 2.0, 'ts': None, 'buckets': [['1.0', 1.0], ['+Inf', 4.0]]}]}],
+     'prefix': '', 'tags': False, 'now': 123},
+    # names that are legacy names only to a case-insensitive / Unicode-aware test: KELVIN SIGN, LONG S, dotless i, dotted capital I,
+    # a fullwidth letter — metric name, label names, custom sample name and label name, exemplar label name; must be quoted
+    {'legacy': False, 'specs': [
+        {'k': 'gauge', 'name': 'temp_\u212a', 'doc': 'h', 'labelnames': ['ma\u017ft', 'd\u0131sk'], 'ns': '', 'ss': '', 'unit': '',
+         'children': [{'lv': ['v', 'w'], 'v': 1.0}]},
+        {'k': 'custom', 'cls': 'Metric', 'name': 'm', 'doc': 'd', 'unit': '', 'typ': 'gauge',
+         'samples': [{'name': 'd\u0131sk', 'labels': {'\u0130d': 'x', 'a\uff21': 'y'}, 'value': 1.0, 'ts': None, 'ex': None}]},
+        {'k': 'counter', 'name': 'c', 'doc': 'h', 'labelnames': [], 'ns': '', 'ss': '', 'unit': '', 'children': [{'lv': [], 'v': 1.0, 'ex': {'\u212a': 'x'}}]}],
      'prefix': '', 'tags': False, 'now': 123},
     # G2: empty sample name, empty prefix
     {'legacy': False, 'specs': [{'k': 'custom', 'cls': 'Metric', 'name': 'm', 'doc': 'd', 'unit': '', 'typ': 'gauge',
